@@ -5,6 +5,7 @@
 //	c04 sched cases.ndjson obs.ndjson
 //	c04 time  cases.ndjson obs.ndjson
 //	c04 stress <config.json> trace.ndjson        (binary built with -race)
+//	c04 funcs - funcs.ndjson                     (the implementation's function tables)
 package main
 
 import (
@@ -30,6 +31,8 @@ func main() {
 		runTime(os.Args[2], os.Args[3])
 	case "timechild":
 		runTimeChild(os.Args[2], os.Args[3])
+	case "funcs":
+		dumpFuncs(os.Args[3])
 	case "stress":
 		runStress(os.Args[2], os.Args[3])
 	case "stresschild":
